@@ -25,7 +25,7 @@ def cpp_schema_cfg(tier: str, n_structs: Tuple[int, int], dup_ids: bool = True) 
     return S.SchemaCfg(
         types=S.TypeCfg(depth=2 if tier == "quick" else 3, max_arr=3),
         min_enums=1, max_enums=3, min_structs=n_structs[0], max_structs=n_structs[1], min_fields=1, max_fields=5,
-        enum_max_bits=8, type_names=cpp_type, field_names=cpp_field, shuffle_ids=True, dup_ids=dup_ids,
+        enum_max_bits=8, type_names=cpp_type, field_names=cpp_field, shuffle_ids=True, dup_ids=dup_ids, wrap16_ids=True,
     )
 
 
@@ -39,7 +39,7 @@ def _no_opt_opt(t: M.Type) -> bool:
 
 @st.composite
 def cpp_program(draw, tier: str, n_structs: Tuple[int, int] = (8, 14), can: bool = False, services: bool = True,
-                exclude: Any = None, dup_ids: bool = True) -> M.Schema:
+                exclude: Any = None, dup_ids: bool = True, bindings: bool = True) -> M.Schema:
     s = draw(S.data_schema(cpp_schema_cfg(tier, n_structs, dup_ids)))
     for e in s.enums:
         e.items = [(f"{e.name}x{k}", v) for k, (_n, v) in enumerate(e.items)]
@@ -88,6 +88,11 @@ def cpp_program(draw, tier: str, n_structs: Tuple[int, int] = (8, 14), can: bool
             mn = draw(S.unique_names(cpp_field, n, n))
             s.decls.append(M.Service(nm, k + 1, [M.Method(m, draw(st.sampled_from(structs)), j, draw(st.sampled_from(structs)))
                                                  for j, m in enumerate(mn)]))
+    if bindings and draw(st.booleans()):
+        # bindings of another protocol for some structs (nested ones included), all collected at the end of the file
+        sub = draw(st.lists(st.sampled_from(structs), min_size=1, max_size=min(4, len(structs)), unique=True))
+        for k, nm in enumerate(draw(st.permutations(sub))):
+            s.decls.append(M.Impl("uart", nm, None, [("id", k)]))
     if can:
         ids = draw(st.lists(st.integers(0, 2047), min_size=len(structs), max_size=len(structs), unique=True))
         for st_, fid in zip(s.structs, ids):
